@@ -21,6 +21,7 @@ SNext ==
                        \/ ITimerFire(j) /\ Rec([a |-> "ITimerFire", j |-> j])
                        \/ IRetryFire(j) /\ Rec([a |-> "IRetryFire", j |-> j])
                        \/ ISyncBegin(j) /\ Rec([a |-> "ISyncBegin", j |-> j])
+    \/ \E j \in Jobs, sa \in StartAfters : "Postpone" \in Env /\ UserPostpone(j, sa) /\ Rec([a |-> "Postpone", j |-> j, sa |-> sa])
     \/ Tick /\ Rec([a |-> "Tick"])
     \/ Deliver /\ Rec([a |-> "Deliver"])
     \/ StoreDeliver /\ Rec([a |-> "StoreDeliver"])
